@@ -540,6 +540,61 @@ def part_push_e2e(ctx):
     return p
 
 
+def services_part(jobs, pusher):
+    """the registered background services run one at a time on a prepared state (verif hook):
+    each run is one Job step of the model; the HTTP pusher service end to end"""
+    def fn(ctx):
+        p = Part("background-services")
+        d = os.path.join(ctx["work"], "services")
+        rc, out = harness(["services", "-out", d], timeout=3000)
+        if rc != 0:
+            p.violation("harness-failed", "the services run failed: " + out[-1500:], dict(log=out[-3000:]), found_input=False)
+            return p
+        info = json.load(open(os.path.join(d, "services.json")))
+        runs = [r for r in info["service_runs"] if r["job"] in jobs]
+        p.evaluations = len(runs) + (info["pusher_service"]["requests"] if pusher else 0)
+        p.nontrivial = sum(1 for r in runs if r["rows_affected"] > 0)
+        p.traces = 1
+        p.samples = runs[:3]
+        p.info = dict(service_runs=runs, pusher_service=info["pusher_service"] if pusher else None)
+        seen = set()
+        if "PruneCompletedDeliveries" in jobs and info.get("dead_rows_left"):
+            p.violation("leftover", "after two rounds of the background services dead rows older than their minimum age remain: %s" % info["dead_rows_left"][:5],
+                        dict(kind="services", left=info["dead_rows_left"]))
+        if pusher:
+            for pr in info["pusher_service"].get("problems") or []:
+                key = "pusher-service:" + pr.split(":")[0]
+                if key not in seen:
+                    seen.add(key)
+                    p.violation(key, "HTTP pusher service: " + pr, dict(kind="services-pusher", problem=pr))
+        steps = info["steps"]
+        outs = coq_eval([os.path.join(d, "services.v")])
+        rc, out = outs[os.path.join(d, "services.v")]
+        if rc != 0:
+            p.violation("model-eval-failed", "services.v did not evaluate: " + out[-600:], dict(log=out[-2000:]), found_input=False)
+            return p
+        for m in re.finditer(r"v0 =\s*(\[.*?\])\s*:\s*list", out, re.S):
+            for si in re.findall(r"(\d+)%nat", m.group(1)):
+                st = steps[int(si)]
+                if st["op"]["Job"] in jobs:
+                    p.violation("prune-visible:" + st["op"]["Job"], "the background service running %s changed the client-visible view of the database" % st["op"]["Job"],
+                                dict(kind="services-monitor", step=int(si), failing_step=st))
+        for m in re.finditer(r"r0 =\s*(\[.*?\])\s*:\s*list", out, re.S):
+            for sm in MM.finditer(m.group(1)):
+                st = steps[int(sm.group(1))]
+                if st["kind"] == "Job" and st["op"]["Job"] in jobs:
+                    key = "service:%s:%s" % (st["op"]["Job"], "+".join(sorted(set(re.findall(r"M[A-Z][a-z]+", sm.group(2))))))
+                    if key not in seen:
+                        seen.add(key)
+                        p.violation(key, "background service running %s (age 1 h, batch 100): implementation and model disagree: %s" % (st["op"]["Job"], re.sub(r"\s+", " ", sm.group(2))),
+                                    dict(kind="services-step", step=int(sm.group(1)), failing_step=st, mismatch=sm.group(2)))
+        return p
+    return fn
+
+
+PRUNE_JOBS = ("PruneCompletedDeliveries", "PruneExpiredDeliveries", "PruneCompletedMessages", "PruneDeletedSubDeliveries", "PruneDeletedSubs", "PruneDeletedTopics")
+
+
 def part_fetch_diff(ctx):
     """the byte budget of one fetch (GetSubscriptionMessages) against Streamer.fetch"""
     p = Part("fetch-byte-budget")
@@ -768,7 +823,8 @@ CHECKS = {
         assumptions=BUS_ASSUME + [T_FLOAT, "concurrent pullers: interleavings are at transaction granularity (serialisable database), covered by the history theorems; not exhibited on the code here"]),
     "C06": dict(
         props=["C06"],
-        parts=[engine_part("delivery", 32, 600, 45, claim_c06, ["pull_deadlettered", "nack_deadlettered", "job_effective:DeadLetterSweep"])],
+        parts=[engine_part("delivery", 32, 600, 45, claim_c06, ["pull_deadlettered", "nack_deadlettered", "job_effective:DeadLetterSweep"]),
+               services_part(("DeadLetterSweep",), False)],
         rule="engine profile delivery with dead-letter policies N in 1..4 and default, topologies from generated topics (no subscriber, several, filtered, ordered, deleted topic, self loop); "
              "non-trivial = deliveries dead-lettered by pull / nack / sweep",
         assumptions=BUS_ASSUME),
@@ -799,7 +855,8 @@ CHECKS = {
         assumptions=["partial: interleavings inside atomic sections and the PostgreSQL LISTEN/NOTIFY relay are not exhibited; 'promptly' is a 2 s bound with all timers >= 10 s"]),
     "C14": dict(
         props=["C14"],
-        parts=[engine_part("delivery", 32, 600, 45, claim_c14, ["job_effective:ExpireSubs", "job_effective:PruneExpiredDeliveries", "pull_empty", "pull_nonempty"])],
+        parts=[engine_part("delivery", 32, 600, 45, claim_c14, ["job_effective:ExpireSubs", "job_effective:PruneExpiredDeliveries", "pull_empty", "pull_nonempty"]),
+               services_part(("ExpireSubs", "PruneExpiredDeliveries"), False)],
         rule="engine profile delivery: retention 20 s .. 1 h and default, ttl 45 s .. 24 h and default, injected delays 0/5/40 s; the clock jumps to each lease / retention / subscription "
              "deadline -1.5 s or +1.5 s ('clearly before or clearly after'); steps whose call spans a deadline are skipped and counted; owned projection: expiry sweep, pulls (heartbeat), "
              "publish (deadlines of new deliveries), SetDelay, expired-delivery prune",
@@ -822,7 +879,7 @@ CHECKS = {
         assumptions=["partial: the handler model covers the validation logic; the enumeration is pairwise, not the full cross product"]),
     "C15": dict(
         props=["C15"],
-        parts=[part_c15_meta, engine_part("prune", 32, 600, 45, claim_c15,
+        parts=[part_c15_meta, services_part(PRUNE_JOBS, False), engine_part("prune", 32, 600, 45, claim_c15,
                                           ["job_effective:PruneCompletedDeliveries", "job_effective:PruneExpiredDeliveries", "job_effective:PruneCompletedMessages",
                                            "job_effective:PruneDeletedSubDeliveries", "job_effective:PruneDeletedSubs", "job_effective:PruneDeletedTopics"])],
         rule="(1) metamorphic pairs on the real code: the same generated client history (publish / pull / ack / nack / modack / purge-seek / snapshots / deletes / expiry and dead-letter sweeps / "
@@ -851,7 +908,7 @@ CHECKS = {
                      "known finding head-of-line-limit: with the candidate list cut by LIMIT before the byte rule, an oversized message at the head hides a smaller one that would fit"]),
     "C19": dict(
         props=["C19pure", "C19"],
-        parts=[part_push_conn, part_push_e2e],
+        parts=[part_push_conn, part_push_e2e, services_part((), True)],
         rule="(1) the push connection (verif hook) against a scripted HTTP endpoint, one batch at a time: batches of 1..10 pushes ending in a fast success, a slow (>= 1 s) success, a non-success final "
              "status (quick: 35 codes; thorough: every code 200..599) or a transport error (connection reset); every Receive() is compared with Push.v (ack vs nack list, window after, FlowControl message), "
              "one sequence drives the window to its cap of 1000; every request body is decoded and compared with the message (base64 against Base64.encode evaluated in Coq, attributes, message id, "
